@@ -1011,10 +1011,22 @@ def shared_state_writes(prog, modname):
                 globals_ |= set(x.names)
         local_stores = set(x.id for x in walk_local(f.node) if isinstance(x, ast.Name) and isinstance(x.ctx, ast.Store)) | set(f.params)
 
+        # containers created in the class body and never replaced per instance are shared through `self.X` as well
+        cls_mutables = set()
+        if f.cls is not None:
+            def _is_container(v):
+                return isinstance(v, (ast.List, ast.Dict, ast.Set)) or (isinstance(v, ast.Call) and src(v.func) in (
+                    "dict", "list", "set", "OrderedDict", "collections.OrderedDict", "defaultdict", "collections.defaultdict", "weakref.WeakValueDictionary"))
+            per_instance = set(x.attr for m_ in f.cls.methods.values() for x in walk_local(m_.node)
+                               if isinstance(x, ast.Attribute) and isinstance(x.ctx, ast.Store) and isinstance(x.value, ast.Name) and x.value.id == "self")
+            cls_mutables = set(k for k, v in f.cls.assigns.items() if _is_container(v)) - per_instance
+
         def shared_base(e):
             """e is an expression denoting shared storage (or an item / attribute inside it)"""
             while isinstance(e, (ast.Subscript, ast.Attribute)):
                 inner = e.value
+                if isinstance(e, ast.Attribute) and isinstance(inner, ast.Name) and inner.id == "self" and e.attr in cls_mutables and not isinstance(e.ctx, ast.Store):
+                    return True
                 if isinstance(e, ast.Attribute):
                     if isinstance(inner, ast.Name) and (inner.id == cls_param or (inner.id in class_names and inner.id not in local_stores)):
                         return True
@@ -1038,3 +1050,83 @@ def shared_state_writes(prog, modname):
                                                                                                              if not isinstance(x.func.value, ast.Name) else x.func.value):
                 out.append((f, x, src(x).split("\n")[0]))
     return out
+
+
+# ------------------------------------------------------------------------------------------------ parameters stay what the caller passed
+def rebound_params(fnode, params):
+    """parameters that some statement of the function replaces by an expression of themselves - `p = f(p)`, `p += k`,
+    `p, q = g(p), g(q)`: the normalising kind of rebinding (a parameter reused as a plain local for another value, as in
+    `dt = folded_dt`, is not one)"""
+    out = set()
+    for x in walk_local(fnode):
+        if isinstance(x, ast.AugAssign) and isinstance(x.target, ast.Name) and x.target.id in params:
+            out.add(x.target.id)
+        elif isinstance(x, ast.Assign):
+            tnames = set(y.id for t in x.targets for y in ast.walk(t) if isinstance(y, ast.Name) and isinstance(y.ctx, ast.Store)) & set(params)
+            if tnames:
+                used = set(y.id for y in ast.walk(x.value) if isinstance(y, ast.Name))
+                out |= tnames & used
+    return out
+
+
+def _raw_function(f):
+    """FunctionDef of f in the module source as written (before the canonical view and the prover's substitutions)"""
+    cache = _raw_function.__dict__.setdefault("cache", {})
+    mod = f.module
+    key = id(mod)
+    if key not in cache:
+        try:
+            cache[key] = ast.parse(mod.text)
+        except SyntaxError:
+            cache[key] = None
+    tree = cache[key]
+    if tree is None:
+        return None
+    parts = f.qualname[len(mod.name) + 1:].split(".")
+    body = tree.body
+    node = None
+    for i, nm in enumerate(parts):
+        node = None
+        for st in body:
+            if isinstance(st, (ast.FunctionDef, ast.AsyncFunctionDef, ast.ClassDef)) and (st.name == nm or nm.endswith("__" + st.name.lstrip("_")) and st.name.startswith("__")):
+                node = st
+                break
+        if node is None:
+            return None
+        body = node.body
+    return node if isinstance(node, (ast.FunctionDef, ast.AsyncFunctionDef)) else None
+
+
+def check_param_rebinding(ctx, rule, classes=(), functions=()):
+    """A function that normalises one of its arguments before using it (strip, round, clamp, filter, `or default`) has
+    changed the meaning of some inputs.  Differential: the parameters a function replaces by an expression of themselves
+    are the ones it so replaced in the confirmed tree (a newly normalised parameter is reported; new functions are not
+    compared)."""
+    from . import summ
+    prog = ctx.prog
+    funcs = list(functions)
+    for cq in classes:
+        c = prog.cls(cq, rule)
+        funcs += [f for _, f in sorted(c.methods.items())]
+    n = 0
+    for f in funcs:
+        try:
+            base = ast.parse(summ.baseline_body(f.qualname))
+        except AnalysisError:
+            continue
+        a_ = f.node.args
+        params = set(f.params) | set(x.arg for x in (a_.vararg, a_.kwarg) if x is not None)
+        old = rebound_params(ast.FunctionDef(name="_b", args=f.node.args, body=base.body or [ast.Pass()], decorator_list=[], returns=None, type_comment=None, type_params=[]), params)
+        new = rebound_params(f.node, params)
+        # also in the source as written: the equivalence prover reads a dead pure computation as no computation, so a
+        # function it accepted (and replaced by its confirmed spelling) can still hold `p = p[:120] + "..."`
+        raw = _raw_function(f)
+        if raw is not None:
+            new |= rebound_params(raw, params)
+        n += 1
+        extra = sorted(new - old)
+        if extra or new:
+            ctx.ob(rule, f, "the arguments a function works on are the ones its caller passed: no parameter is newly replaced by an expression of itself "
+                   "(the confirmed code normalises: %s)" % (", ".join(sorted(old)) or "none"), not extra, construct="%s: rebound parameters" % f.name,
+                   detail="" if not extra else "newly rebound: %s" % ", ".join(extra), analysis="differential who-assigns over the parameters")
+    return n
